@@ -4,7 +4,7 @@ import sys, os, json, shutil
 HERE = os.path.dirname(os.path.dirname(os.path.abspath(__file__)))
 pid, sub, n, change, needs, det = sys.argv[1:7]
 ran = sys.argv[7] if len(sys.argv) > 7 else "python3 tools/try_seed.py seeded/%s-%s/patch.diff %s" % (pid, n, pid)
-src = "/tmp/r3-%s-out/%s" % (pid, sub)
+src = "/tmp/%s-%s-out/%s" % (os.environ.get("ROUND", "r3"), pid, sub)
 dst = os.path.join(HERE, "seeded", "%s-%s" % (pid, n))
 if os.path.exists(dst):
     shutil.rmtree(dst)
@@ -13,7 +13,7 @@ shutil.copy(os.path.join(src, "patch.diff"), dst)
 shutil.copy(os.path.join(src, "README.md"), dst)
 shutil.copytree(os.path.join(src, "demo"), os.path.join(dst, "demo"))
 json.dump({"property": pid, "change": change, "needs_to_manifest": needs,
-           "author": "independent sub-agent (round 3) given only the property text and a scratch worktree",
+           "author": "independent sub-agent (round %s)" % os.environ.get("ROUND", "r3")[1:] + " given only the property text and a scratch worktree",
            "confirmed": "tools/confirm_seed3.sh %s %s: 41/41 tests pass with the change; demo/run.sh exits non-zero with the change and 0 without" % (pid, sub),
            "detected_by": det, "ran": ran}, open(os.path.join(dst, "meta.json"), "w"), indent=1)
 print("filed", dst)
